@@ -2370,12 +2370,14 @@ class Client:
         This don't guarantee that publish packet are sent, use `wait_for_publish` or
         `on_publish` to ensure `publish` are sent.
         """
-        if self._thread is None:
+        # The network thread clears self._thread when it exits: look at it once.
+        thread = self._thread
+        if thread is None:
             return MQTTErrorCode.MQTT_ERR_INVAL
 
         self._thread_terminate = True
-        if threading.current_thread() != self._thread:
-            self._thread.join()
+        if threading.current_thread() != thread:
+            thread.join()
 
         return MQTTErrorCode.MQTT_ERR_SUCCESS
 
